@@ -165,6 +165,11 @@ pub struct ScenarioH {
     /// account snapshots (initial and after every re-connection) list each instrument, with no orders
     #[serde(default)]
     pub snapshot_lists_instruments: bool,
+    /// the execution side is wired by hand the way `ExecutionBuilder::add_mock` wires a generic
+    /// client (one whose `ExecutionClient::EXCHANGE` is not the exchange it trades on) instead of
+    /// through `ExecutionBuilder::add_live`
+    #[serde(default)]
+    pub generic_client: bool,
 }
 
 fn cid(ord: usize) -> String {
@@ -266,6 +271,11 @@ fn run_system(sc: &ScenarioH, w: &WorldH) -> Result<RunOut, String> {
             .map(|e| sc.steps.iter().filter(|s| matches!(s.kind, KindH::AcctDrop { ex } if ex == e)).count())
             .collect();
         let mut builder = ExecutionBuilder::new(&w.instruments);
+        type RunFut = std::pin::Pin<Box<dyn std::future::Future<Output = ()> + Send + 'static>>;
+        type InitFut = std::pin::Pin<Box<dyn std::future::Future<Output = Result<(RunFut, RunFut), barter::execution::error::ExecutionError>> + Send>>;
+        let mut hand_txs: Vec<(ExchangeId, Option<barter_integration::channel::UnboundedTx<barter::execution::request::ExecutionRequest>>)> = Vec::new();
+        let mut hand_inits: Vec<InitFut> = Vec::new();
+        let hand_channel = barter_integration::channel::Channel::<AccountStreamEvent>::new();
         let mut clients: Vec<SimClient> = Vec::new();
         let mut conns: Vec<VecDeque<tokio::sync::mpsc::UnboundedSender<UnindexedAccountEvent>>> = Vec::new();
         for ex in w.instruments.exchanges().iter() {
@@ -297,7 +307,34 @@ fn run_system(sc: &ScenarioH, w: &WorldH) -> Result<RunOut, String> {
                 q.push_back(client.add_connection());
             }
             let t = Duration::from_millis(timeout);
-            if sc.untraded != Some(e) {
+            if sc.generic_client {
+                if sc.untraded == Some(e) {
+                    hand_txs.push((ex.value, None));
+                } else {
+                    use barter_data::streams::reconnect::stream::ReconnectingStream;
+                    use futures::FutureExt;
+                    let map = barter_execution::map::generate_execution_instrument_map(&w.instruments, ex.value)
+                        .map_err(|e| format!("generate_execution_instrument_map failed: {e}"))?;
+                    let (tx, rx) = barter_integration::channel::mpsc_unbounded();
+                    hand_txs.push((ex.value, Some(tx)));
+                    let merged_tx = hand_channel.tx.clone();
+                    let init = barter::execution::manager::ExecutionManager::init(
+                        rx.into_stream(),
+                        t,
+                        Arc::new(client.clone()),
+                        barter_execution::indexer::AccountEventIndexer::new(Arc::new(map)),
+                        barter_data::streams::consumer::STREAM_RECONNECTION_POLICY,
+                    )
+                    .map(|r| {
+                        r.map(|(manager, account_stream)| {
+                            let a: RunFut = Box::pin(manager.run());
+                            let b: RunFut = Box::pin(account_stream.forward_to(merged_tx));
+                            (a, b)
+                        })
+                    });
+                    hand_inits.push(Box::pin(init));
+                }
+            } else if sc.untraded != Some(e) {
                 let added = match EXS.iter().position(|x| *x == ex.value).unwrap_or(0) {
                     0 => builder.add_live::<SimClientN<0>>(client.clone(), t),
                     1 => builder.add_live::<SimClientN<1>>(client.clone(), t),
@@ -309,7 +346,16 @@ fn run_system(sc: &ScenarioH, w: &WorldH) -> Result<RunOut, String> {
             clients.push(client);
             conns.push(q);
         }
-        let execution = builder.build();
+        let execution = if sc.generic_client {
+            barter::execution::builder::ExecutionBuild {
+                execution_tx_map: hand_txs.into_iter().collect(),
+                account_channel: hand_channel,
+                futures: barter::execution::builder::ExecutionBuildFutures { mock_exchange_run_futures: vec![], execution_init_futures: hand_inits },
+            }
+        } else {
+            drop(hand_channel);
+            builder.build()
+        };
 
         // ---- engine -------------------------------------------------------------------------
         let state = build_state(
@@ -546,23 +592,23 @@ fn run_system(sc: &ScenarioH, w: &WorldH) -> Result<RunOut, String> {
         let (engine, _shutdown_audit) = if engine_died {
             // System::shutdown would push a Shutdown into a feed nobody reads any more
             let barter::system::System { engine, mut handles, .. } = system;
-            let r = engine.await.map_err(|e| format!("engine task failed: {e}"))?;
+            let r = engine.await.map_err(|e| format!("engine task failed: {}", join_err(e)))?;
             tokio::time::timeout(Duration::from_secs(3600), barter::shutdown::AsyncShutdown::shutdown(&mut handles))
                 .await
                 .map_err(|_| "execution components did not stop within 1 h of virtual time".to_string())?
-                .map_err(|e| format!("stopping the execution components failed: {e}"))?;
+                .map_err(|e| format!("stopping the execution components failed: {}", join_err(e)))?;
             r
         } else {
             match tokio::time::timeout(Duration::from_secs(3600), system.shutdown()).await {
                 Err(_) => return Err("System::shutdown did not finish within 1 h of virtual time".to_string()),
-                Ok(Err(e)) => return Err(format!("System::shutdown failed: {e}")),
+                Ok(Err(e)) => return Err(format!("System::shutdown failed: {}", join_err(e))),
                 Ok(Ok(x)) => x,
             }
         };
         let ticks = tokio::time::timeout(Duration::from_secs(3600), collector)
             .await
             .map_err(|_| "audit channel not closed after the engine stopped".to_string())?
-            .map_err(|e| format!("audit collector failed: {e}"))?;
+            .map_err(|e| format!("audit collector failed: {}", join_err(e)))?;
         let received = clients.iter().map(|c| c.0.received.lock().unwrap().clone()).collect();
         let s = script.lock().unwrap();
         Ok(RunOut {
@@ -587,6 +633,20 @@ fn run_system(sc: &ScenarioH, w: &WorldH) -> Result<RunOut, String> {
     HSTART.with(|s| s.set(None));
     drop(rt);
     out
+}
+
+/// A task failure without the runtime's task id (which differs between executions).
+fn join_err(e: tokio::task::JoinError) -> String {
+    if e.is_cancelled() {
+        return "task cancelled".to_string();
+    }
+    match e.try_into_panic() {
+        Ok(p) => {
+            let msg = p.downcast_ref::<String>().cloned().or_else(|| p.downcast_ref::<&str>().map(|s| s.to_string())).unwrap_or_default();
+            format!("task panicked: {msg}")
+        }
+        Err(_) => "task failed".to_string(),
+    }
 }
 
 /// Possible model states of one order after a prefix of the audited history.
@@ -820,6 +880,7 @@ impl Sim for SimH {
             yield_pm: if faulty { *rng.pick(&[0u64, 0, 50, 300]) } else { 0 },
             untraded: if faulty && n_ex >= 2 && rng.chance(1, 4) { Some(rng.usize(n_ex)) } else { None },
             snapshot_lists_instruments: rng.chance(1, 2),
+            generic_client: rng.chance(1, 3),
         }
     }
 
@@ -894,6 +955,9 @@ impl Sim for SimH {
             }
             if sc.untraded.is_some() {
                 stats.fault("exchange_without_execution_link");
+            }
+            if sc.generic_client {
+                stats.probe("execution_wired_for_generic_client");
             }
             if out.engine_died {
                 stats.probe("engine_stopped_on_fatal_error");
@@ -1711,6 +1775,11 @@ impl Sim for SimH {
             s.yield_pm = 0;
             out.push(s);
         }
+        if sc.generic_client {
+            let mut s = sc.clone();
+            s.generic_client = false;
+            out.push(s);
+        }
         if !sc.refuse_opens.is_empty() || !sc.refuse_cancels.is_empty() {
             let mut s = sc.clone();
             s.refuse_opens.clear();
@@ -1786,7 +1855,7 @@ impl Sim for SimH {
         ]
     }
     fn probe_kinds(&self) -> Vec<&'static str> {
-        let mut v = vec!["engine_stopped_on_fatal_error"];
+        let mut v = vec!["engine_stopped_on_fatal_error", "execution_wired_for_generic_client"];
         v.extend(match self.prop {
             PropH::C01 => vec!["lifecycle_model_followed_whole_system_run", "order_tracked_at_quiescence", "model_left_state_open"],
             PropH::C03 => vec!["requests_crossed_real_execution_manager", "command_actioned_while_trading_disabled", "risk_refusal_in_whole_system_run", "request_for_exchange_without_link", "strategy_request_for_exchange_without_link", "strategy_batch_hidden_by_fatal_record"],
